@@ -60,6 +60,9 @@ def run(ctx):
         if v == 'VALID':
             items.append(('synth:maxlen-groups', data, out, dict(opts=['maxlen'], workers=rnd.choice(wsets),
                                                                env={'LBZIP2_VERIF_IN_GRANUL': str(4 * rnd.randrange(32, 700))})))
+    for i in range(12 if q else 250):
+        name, d, plain = dcorpus.concat_levels(rnd, lb)
+        items.append((name, d, plain, dict(opts=['concat-levels'], workers=rnd.choice(wsets))))
     # special corners
     for level in ([1, 9] if q else range(1, 10)):
         nb = level * 100000
